@@ -215,6 +215,50 @@ class Model:
         return "o:%d" % d[1]
 
 
+PROBE_IDS = ["v=1", "v=0", "e=0", "ec=", "cr=0", "c=1", "c=0", "r=0", "rv=", "tv=", "u=0", "U=1", "i=2", "me=", "m=", "ce=", "v=1x", "=", "a=b"]
+
+
+def gen_probe_history(rng, mdl):
+    """histories whose ids contain '=' (the separator of the annotator's hash string): they test that the model
+    serialises exactly like generateHash(); stale look-ups in them are the known finding C13-hash-string-ambiguous"""
+    r = rng
+    ops = []
+    hist = {"probe": 1}
+    pairs = []          # (slot a, slot b, id) such that moving id from b to a keeps the serialised string
+    for c in mdl.comps:
+        vs = c["vars"]
+        for i in range(len(vs) - 1):
+            pairs.append((vs[i]["slot"], vs[i + 1]["slot"], "v=%d" % (i + 1)))
+        for x in c["resets"]:
+            pairs.append((x["slot"], x["rv"], "rv="))
+            pairs.append((x["rv"], x["tv"], "tv="))
+    for u in mdl.units:
+        it = u["items"]
+        for i in range(len(it) - 1):
+            pairs.append((it[i], it[i + 1], "u=%d" % (i + 1)))
+    for _ in range(r.randint(0, 3)):
+        ops.append("E %d %s" % (r.randrange(mdl.n), S(r.choice(PROBE_IDS + ["id1", ""]))))
+    if pairs and r.random() < 0.8:
+        a, b, x = r.choice(pairs)
+        ops += ["E %d %s" % (a, S("")), "E %d %s" % (b, S(x)), "S", "i %s" % S(x), "n %s" % S(x),
+                "E %d %s" % (a, S(x)), "E %d %s" % (b, S("")), "i %s" % S(x), "l %s" % S(x), "d"]
+        if r.random() < 0.5:
+            ops += [r.choice(["A", "T var", "T reset", "T rv"]), "i %s" % S(x), "d", "D"]
+    else:
+        ops.append("S")
+    for _ in range(r.randint(2, 10)):
+        k = r.random()
+        if k < 0.5:
+            ops.append("E %d %s" % (r.randrange(mdl.n), S(r.choice(PROBE_IDS + ["", "id2", "b4da55"]))))
+        elif k < 0.6:
+            ops.append(r.choice(["A", "T var", "T comp", "C"]))
+        else:
+            x = S(r.choice(PROBE_IDS + ["b4da55", "id1"]))
+            ops.append(r.choice(["i %s" % x, "n %s" % x, "u %s" % x, "l %s" % x, "d", "D"]))
+    ops += ["d", "D"]
+    return ops, False, hist
+
+
 def gen_history(rng, mdl, long=False):
     """-> (ops text list, nontrivial flag, histogram of op kinds)"""
     r = rng
@@ -404,6 +448,8 @@ def judge(case, cline, mline):
     if len(cr) != len(ops) or len(mr) != len(ops):
         return problems + ["result count differs: ops=%d impl=%d model=%d" % (len(ops), len(cr), len(mr))], known
 
+    has_eq = any(o.split()[0] == "E" and "=" in unS(o.split()[2]) for o in ops)
+    lookup_problems = []        # look-up oracle failures; excused (known finding) only in histories with '=' ids
     cur = [""] * tv.n           # ids according to the implementation (edits applied, snapshots taken over)
     has_model = False
     nonmath = [i for i in range(tv.n) if tv.kind[i] != "math"]
@@ -500,35 +546,35 @@ def judge(case, cline, mline):
                     ids = [x for x in ids if len(carriers(x)) > 1]
                 exp = "[" + ",".join("s" + x.encode("latin-1").hex() for x in ids) + "]"
                 if c != exp:
-                    problems.append("ORACLE op %d (%s): %s differs from the independent traversal: impl=%s expected=%s" %
+                    lookup_problems.append("ORACLE op %d (%s): %s differs from the independent traversal: impl=%s expected=%s" %
                                     (k, op, "ids()" if w[0] == "d" else "duplicateIds()", c[:120], exp[:120]))
                 continue
             x = unS(w[1]) if w[0] != "t" else unS(w[2])
             cs = carriers(x) if x != "" else []
             if w[0] == "n" and c != str(len(cs)):
-                problems.append("ORACLE op %d itemCount(%r): impl=%s, %d positions carry it" % (k, x, c, len(cs)))
+                lookup_problems.append("ORACLE op %d itemCount(%r): impl=%s, %d positions carry it" % (k, x, c, len(cs)))
             if w[0] == "u" and c != ("b1" if len(cs) == 1 else "b0"):
-                problems.append("ORACLE op %d isUnique(%r): impl=%s, %d positions carry it" % (k, x, c, len(cs)))
+                lookup_problems.append("ORACLE op %d isUnique(%r): impl=%s, %d positions carry it" % (k, x, c, len(cs)))
             if w[0] == "i":
                 if len(cs) == 1:
                     f = c.split(":")
                     if len(f) != 4 or f[0] != tv.kind[cs[0]] or int(f[1]) != cs[0]:
-                        problems.append("ORACLE op %d item(%r): impl=%s but the id is carried by exactly %s:%d" % (k, x, c, tv.kind[cs[0]], cs[0]))
+                        lookup_problems.append("ORACLE op %d item(%r): impl=%s but the id is carried by exactly %s:%d" % (k, x, c, tv.kind[cs[0]], cs[0]))
                 elif c != "undef":
-                    problems.append("ORACLE op %d item(%r): impl=%s but %d positions carry it" % (k, x, c, len(cs)))
+                    lookup_problems.append("ORACLE op %d item(%r): impl=%s but %d positions carry it" % (k, x, c, len(cs)))
             if w[0] == "l":
                 got = sorted(tuple(t.split(":")[:2]) for t in c.strip("[]").split(",") if t)
                 exp = sorted((tv.kind[i], str(i)) for i in cs)
                 if got != exp:
-                    problems.append("ORACLE op %d items(%r): impl=%s expected positions %s" % (k, x, c[:120], exp[:8]))
+                    lookup_problems.append("ORACLE op %d items(%r): impl=%s expected positions %s" % (k, x, c[:120], exp[:8]))
             if w[0] == "x":
                 idx = int(w[2])
                 if (idx >= len(cs)) != (c == "undef"):
-                    problems.append("ORACLE op %d item(%r, %d): impl=%s but %d positions carry it" % (k, x, idx, c, len(cs)))
+                    lookup_problems.append("ORACLE op %d item(%r, %d): impl=%s but %d positions carry it" % (k, x, idx, c, len(cs)))
                 elif c != "undef":
                     f = c.split(":")
                     if len(f) != 4 or int(f[1]) not in cs or f[0] != tv.kind[int(f[1])]:
-                        problems.append("ORACLE op %d item(%r, %d): impl=%s is not a carrier" % (k, x, idx, c))
+                        lookup_problems.append("ORACLE op %d item(%r, %d): impl=%s is not a carrier" % (k, x, idx, c))
             if w[0] == "t":
                 if len(cs) == 1 and ACC_OF_KIND[tv.kind[cs[0]]] == w[1]:
                     i = cs[0]
@@ -537,9 +583,9 @@ def judge(case, cline, mline):
                     else:
                         ok = c == tv.obj_of(tv.kind[i], i, 0, 0)
                     if not ok:
-                        problems.append("ORACLE op %d typed(%s, %r): impl=%s but the id is carried by exactly %s:%d" % (k, w[1], x, c, tv.kind[i], i))
+                        lookup_problems.append("ORACLE op %d typed(%s, %r): impl=%s but the id is carried by exactly %s:%d" % (k, w[1], x, c, tv.kind[i], i))
                 elif c != "null":
-                    problems.append("ORACLE op %d typed(%s, %r): impl=%s, expected null" % (k, w[1], x, c))
+                    lookup_problems.append("ORACLE op %d typed(%s, %r): impl=%s, expected null" % (k, w[1], x, c))
         elif w[0] == "P":
             body = c[1:]
             flags = ""
@@ -557,6 +603,12 @@ def judge(case, cline, mline):
             if mclash:
                 known.append(("C13-mathml-ids-invisible",
                               "printModel(model, true): generated id %r equals an id carried by a MathML element (%s)" % (mclash[0], case_hint(case))))
+    if lookup_problems:
+        if has_eq:
+            known.append(("C13-hash-string-ambiguous",
+                          "%s in a history with identifiers containing '=' (%s)" % (lookup_problems[0][:160], case_hint(case))))
+        else:
+            problems += lookup_problems
     if ctail.get("final") is not None and snap_ids(ctail["final"]) != cur:
         problems.append("ORACLE: ids read back at the end differ from edits + snapshots (an operation that should not touch ids did)")
     if ctail.get("final") != mtail.get("final"):
@@ -675,7 +727,10 @@ def run(ctx):
     while len(cases) < n_hist:
         if mdl is None or ctx.rng.random() < 0.5:
             mdl = Model(ctx.rng, big=ctx.rng.random() < 0.1)
-        ops, nontriv, hist = gen_history(ctx.rng, mdl, long=ctx.rng.random() < 0.15)
+        if ctx.rng.random() < 0.04:
+            ops, nontriv, hist = gen_probe_history(ctx.rng, mdl)
+        else:
+            ops, nontriv, hist = gen_history(ctx.rng, mdl, long=ctx.rng.random() < 0.15)
         cases.append(make_case(mdl, ops))
         meta.append((nontriv, hist))
         for k, v in hist.items():
